@@ -95,6 +95,7 @@ def check(rep, tier):
     recs = sr.catalogue(rng, tier, n0=3, n1=3 if tier == "quick" else 9, n2=1 if tier == "quick" else 5)
     recs += sr.catalogue(rng, tier, dims=("homogeneous", "spatial_1D"), cn=True, n0=1, n1=1)
     recs += sr.catalogue(rng, tier, dims=("spatial_1D",), confs=["shelf"], n1=1 if tier == "quick" else 3, wide_depression=True)
+    recs += sr.catalogue(rng, tier, dims=("spatial_1D",) if tier == "quick" else ("homogeneous", "spatial_1D", "spatial_2D"), confs=["shelf"], n0=1, n1=1, n2=1, repoint=True)
     # a study of several repetitions on ONE object (sequential): the reported trajectory is the last repetition's
     for dim in (["spatial_1D"] if tier == "quick" else ["spatial_1D", "homogeneous", "spatial_2D"]):
         prog = dict(start=10, end=-50, rate=2.0 / 60, holds=[], t_tot=3600.0, dt=1.0)
